@@ -6,6 +6,11 @@ import scipy.sparse as sp
 
 from .. import gen
 
+def _nn(v):
+    """NaN counts as 'exceeds every bound' in the oracle comparisons"""
+    return np.inf if np.isnan(v) else v
+
+
 TECHNIQUE = 'Coq proof of the caching state machine (history theorem) and of the splu zero-row/column map + call-sequence oracle'
 LEVEL_TEXT = ('Kernel-checked theorems (Props/C16.v): for every factorisation/application pair and every sequence of '
               'right-hand sides the coarse_grid_solver state machine returns, at each call, the solve of that call\'s own '
@@ -121,16 +126,16 @@ def run(ctx):
                 direct = sname in ('pinv', 'lu', 'cholesky', 'splu', 'callable')
                 if direct and kind in ('spd', 'nonsym'):
                     ref = np.linalg.solve(Ad, bv)
-                    if np.linalg.norm(xv - ref) > 1e-9 * np.linalg.cond(Ad) * (1 + np.linalg.norm(ref)):
+                    if _nn(np.linalg.norm(xv - ref)) > 1e-9 * np.linalg.cond(Ad) * (1 + np.linalg.norm(ref)):
                         ctx.fail('coarse/%s/wrong-solution' % sname, '|x - A^-1 b| = %.3g' % np.linalg.norm(xv - ref), cs)
                 elif sname in ('pinv', 'callable') and kind in ('singular', 'singular-zero'):
                     ref = np.linalg.pinv(Ad) @ bv
-                    if np.linalg.norm(xv - ref) > 1e-8 * (1 + np.linalg.norm(ref)):
+                    if _nn(np.linalg.norm(xv - ref)) > 1e-8 * (1 + np.linalg.norm(ref)):
                         ctx.fail('coarse/pinv/not-minimum-norm-least-squares', '|x - A^+ b| = %.3g' % np.linalg.norm(xv - ref), cs)
                 elif sname == 'splu' and kind == 'singular-zero':
                     nzr = np.where(np.abs(Ad).sum(1) > 0)[0]
                     zr = np.where(np.abs(Ad).sum(1) == 0)[0]
-                    if np.linalg.norm((Ad @ xv - bv)[nzr]) > 1e-9 * (1 + np.linalg.norm(bv)) or np.any(xv[zr] != 0):
+                    if _nn(np.linalg.norm((Ad @ xv - bv)[nzr])) > 1e-9 * (1 + np.linalg.norm(bv)) or np.any(xv[zr] != 0):
                         ctx.fail('coarse/splu/zero-rows-columns', 'retained equations not solved or removed unknowns nonzero', cs)
                 elif not direct and kind == 'spd':
                     # iterative coarse solvers start from zero and must not increase the energy norm of the error
